@@ -9,6 +9,7 @@ PRNG, executes the run once under the drawn policy and stores the *recorded*
 schedule in the case, so exec_case(case) is a pure replay of explicit data.
 """
 import copy
+import json
 import random
 
 from statham.schema.constants import NotPassed
@@ -82,11 +83,22 @@ def _run(case, scheduler, built):
     """Run the threads of `case` on `built` under `scheduler`.
     -> per-thread list of (verdict, norm result, exc, input unchanged)"""
     outcomes = [[None] * len(calls) for calls in case["threads"]]
+    shared_objects = {}
+
+    def value_of(arg):
+        # "share_values": calls whose values are equal receive the very same
+        # input object, also across threads (validation must not care)
+        if not case.get("share_values") or "np" in arg:
+            return _value(arg)
+        key = json.dumps(arg["v"], sort_keys=True)
+        if key not in shared_objects:
+            shared_objects[key] = _value(arg)
+        return shared_objects[key]
 
     def worker(tid):
         calls = case["threads"][tid]
         targets = [live_resolve(built, call["path"]) for call in calls]
-        values = [_value(call["arg"]) for call in calls]
+        values = [value_of(call["arg"]) for call in calls]
         befores = [norm(val) for val in values]
 
         def fn():
@@ -167,6 +179,9 @@ def gen_case(rng):
         ]
         for attr, spec in rng.sample(menu, rng.randint(1, 3)):
             target["props"][attr] = {"el": spec, "required": rng.random() < 0.3, "source": None}
+        if rng.random() < 0.5:
+            # an untyped property: the place where arbitrarily nested data goes
+            target["props"]["free"] = {"el": {"k": "Element", "kw": {}}, "required": False, "source": None}
         if rng.random() < 0.4:
             target["kw"].setdefault("patternProperties", {})["^x"] = wgen.element(2)
         root_kind = rng.random()
@@ -214,6 +229,7 @@ def gen_case(rng):
         if best is not None and rng.random() < 0.8:
             shared_path = best
     p_again = rng.choice([0.0, 0.25, 0.4])
+    p_deep = rng.choice([0.0, 0.0, 0.0, 0.15, 0.4])
     earlier = []
     shared_value = None
     if rng.random() < 0.15:
@@ -229,6 +245,18 @@ def gen_case(rng):
                 continue
             if rng.random() < 0.05:
                 arg = {"np": 1}
+            elif rng.random() < p_deep:
+                # deeply nested data (an untyped position accepts any nesting)
+                val = rng.choice([0, "a", None])
+                for _ in range(rng.randint(30, 70)):
+                    val = [val] if rng.random() < 0.6 else {"a": val}
+                # place it where an untyped position is likely to receive it
+                props = getattr(node, "properties", None)
+                if props and "free" in props:
+                    val = {"free": val}
+                elif props is not None:
+                    val = {"zz": val}
+                arg = {"v": val}
             elif shared_value is not None and path == shared_path[0]:
                 arg = {"v": copy.deepcopy(shared_value)}
             else:
@@ -277,6 +305,7 @@ def gen_case(rng):
         "policy_seed": rng.getrandbits(48),
         "swarm": swarm.describe(),
         "hot": hot,
+        "share_values": bool(shared_value is not None or p_again) and rng.random() < 0.6,
     }
     # execute once under the policy to obtain the explicit schedule
     sch = sched.Scheduler(
@@ -349,6 +378,8 @@ def exec_case(case, log, stats):
         stats.inc("opcode_granularity_runs")
     if case.get("hot"):
         stats.inc("hot_shared_model_runs")
+    if case.get("share_values"):
+        stats.inc("runs_sharing_input_objects_between_calls")
     if sch.capped:
         stats.inc("step_cap_hit")
     if sch.overlaps:
